@@ -16,6 +16,15 @@
     skipIgnoresVarDefault   @skip/@include look variables up in the raw request variables,
                             ignoring variable default values
     nanNullInNonNull        a non-finite float serialises to null even in a non-null position
+    resolverErrPropagates   an `Err` returned by a field's own resolver always propagates to the
+                            parent selection set, even when the field's type is nullable
+                            (`Result<Option<T>>`): the generated `resolve_field` applies `?` before
+                            `Option<T>::resolve` can capture anything
+    listItemPathOverwrite   an error travelling up through a list item has its path replaced by the
+                            path of that item (`resolve_list` calls `set_error_path` unconditionally)
+    ifaceErrNoPath          an `Err` returned by a resolver reached through an interface's own
+                            `resolve_field` carries no path
+  Convention: when `val = none`, the error that is travelling upwards is the LAST one of `errs`.
   Import-free.
 -/
 import AGV.Core.Types
@@ -29,6 +38,9 @@ structure Defects where
   unionCondIgnored : Bool := false
   skipIgnoresVarDefault : Bool := false
   nanNullInNonNull : Bool := false
+  resolverErrPropagates : Bool := false
+  listItemPathOverwrite : Bool := false
+  ifaceErrNoPath : Bool := false
   deriving Repr, Inhabited, DecidableEq
 
 def Defects.none : Defects := {}
@@ -100,7 +112,7 @@ def collect (c : Ctx) (rt : String) : Nat → String → List Sel → List Field
   | fuel + 1, st, sels =>
     (sels.map (fun sel =>
       match sel with
-      | .field al n args _ ss pos => [{ key := Sel.key al n, name := n, args := args, sels := ss, pos := pos }]
+      | .field al n args _ ss pos => [{ key := Sel.key al n, name := n, args := args, sels := ss, pos := pos, st := st }]
       | .spread n _ _ =>
         match c.d.frag? n with
         | none => []
@@ -181,6 +193,16 @@ def nnWrap (r : Res) : Res :=
   | some .null => if r.errs.isEmpty then r else { r with val := none }
   | _ => r
 
+/-- replace the path of the error that is travelling upwards (the last one) -/
+def rewriteLast (p : List PathSeg) : List GErr → List GErr
+  | [] => []
+  | [e] => [{ e with path := p }]
+  | e :: rest => e :: rewriteLast p rest
+
+/-- the per-item wrapper of `resolve_list` -/
+def itemWrap (D : Defects) (p : List PathSeg) (r : Res) : Res :=
+  if D.listItemPathOverwrite && r.val.isNone then { r with errs := rewriteLast p r.errs } else r
+
 /-- `OutputType::resolve` for the Rust type standing behind a schema type.
     `rec st rt id sels path` = resolve_container on an object value. -/
 def resolveValue (c : Ctx) (rec : String → String → Nat → List Sel → List PathSeg → Res) :
@@ -195,7 +217,8 @@ def resolveValue (c : Ctx) (rec : String → String → Nat → List Sel → Lis
     match rv with
     | .null => { val := some .null }
     | .list xs =>
-      let rs := joinAll (mapIdx (fun i x => fun (_ : Unit) => resolveValue c rec t x ss (path ++ [.idx i]) pos) xs 0)
+      let rs := joinAll (mapIdx (fun i x => fun (_ : Unit) =>
+        itemWrap c.D (path ++ [.idx i]) (resolveValue c rec t x ss (path ++ [.idx i]) pos)) xs 0)
       let errs := (rs.map (·.errs)).flatten
       let log := (rs.map (·.log)).flatten
       if rs.all (·.val.isSome) then { val := some (.list (rs.filterMap (·.val))), errs := errs, log := log }
@@ -229,8 +252,9 @@ def completeField (c : Ctx) (recC : String → String → Nat → List Sel → L
   match rv with
   | .fail _ =>
     -- the resolver itself returned Err: an `Option` return type captures it, anything else propagates
-    if fd.ty.isNonNull then { val := none, errs := [⟨fpath, occ.pos⟩] }
-    else { val := some .null, errs := [⟨fpath, occ.pos⟩] }
+    let epath := if c.D.ifaceErrNoPath && c.S.kindOf occ.st == some .interface then [] else fpath
+    if fd.ty.isNonNull || c.D.resolverErrPropagates then { val := none, errs := [⟨epath, occ.pos⟩] }
+    else { val := some .null, errs := [⟨epath, occ.pos⟩] }
   | _ => resolveValue c recC fd.ty rv occ.sels fpath occ.pos
 
 /-- one field future of `add_set`: `__typename`, or the resolver followed by completion;
